@@ -15,8 +15,9 @@ FUNC_NAMES = ["train", "run", "fit"]
 class Layout(object):
     """How one project file is put together (so that the simulated user can edit it)."""
 
-    def __init__(self, kind, name, before, after, trailing_newline, module_doc=None, siblings=()):
+    def __init__(self, kind, name, before, after, trailing_newline, module_doc=None, siblings=(), header=None):
         self.kind, self.name = kind, name
+        self.header = header
         self.before, self.after = before, after
         self.trailing_newline = trailing_newline
         self.module_doc = module_doc
@@ -46,12 +47,12 @@ class Layout(object):
             if "." in self.name and self.kind == "function" and style.get("absent_keeps_class", True):
                 cls = self.name.split(".")[0]
                 holder = "class %s(object):\n    \"\"\" %s class \"\"\"\n\n    marker: int = 1" % (cls, cls)
-                return render.assemble(self.before, holder, [u for u in self.after if u["kind"] not in ("rebind_ann",)], self.trailing_newline, self.module_doc)
+                return render.assemble(self.before, holder, [u for u in self.after if u["kind"] not in ("rebind_ann",)], self.trailing_newline, self.module_doc, self.header)
             # statements that use the definition's name make no sense in a file that does not define it
             after = [u for u in self.after if u["kind"] not in ("rebind", "rebind_ann", "use_after")]
-            body = render.assemble(self.before, None, after, self.trailing_newline, self.module_doc)
+            body = render.assemble(self.before, None, after, self.trailing_newline, self.module_doc, self.header)
             return body if body.strip() else "import os\n"
-        return render.assemble(self.before, self.definition(desc, style), self.after, self.trailing_newline, self.module_doc)
+        return render.assemble(self.before, self.definition(desc, style), self.after, self.trailing_newline, self.module_doc, self.header)
 
 
 def _colliding(desc, name):
@@ -83,7 +84,7 @@ def gen_layout(ch, label, kind, name, desc, rich):
                       "Module %s." % label.replace(".", " "),
                       "Settings of the %s module.\n\nname      meaning\nalpha     first  column\nbeta      second column\n" % label.replace(".", " "),
                       "Notes:\n    indented    text with    runs of blanks",
-                  ]) if ch.chance(label + ".mdoc", 0.25) else None, siblings=siblings)
+                  ]) if ch.chance(label + ".mdoc", 0.25) else None, siblings=siblings, header=ch.choice(label + ".header", render.HEADERS))
 
 
 DOCSTYLE_P = float(os.environ.get("DTSIM_DOCSTYLE_P", "0.15"))
@@ -431,6 +432,8 @@ def sp_op(proj, ch, lab, _files):
                             oargdef=' = "o"' if tch.chance("oargdef", 0.5) else "", hargdef="=None" if tch.chance("hargdef", 0.3) else "")
     if not tch.chance("nl", 0.8):
         outp = outp.rstrip("\n")
+    outp = (tch.choice("outheader", render.HEADERS) or "") + outp
+    inp = (tch.choice("inheader", render.HEADERS) or "") + inp
     in_addrs = ["Source." + cattr, "Source.method." + marg, "source_fn." + farg, "source_fn." + kwarg, "module_attr"]
     out_addrs = [oconst, "Target." + oattr, "Target.method." + omarg, "Target.method." + okw, "target_fn." + oarg, "target_fn." + okw2,
                  "Later.method." + omarg, "helper." + oarg]
@@ -498,11 +501,15 @@ def sp_op(proj, ch, lab, _files):
     bad = ch.chance(lab + ".bad", 0.15) and not clash
     if bad:
         j = ch.int(lab + ".badj", 0, npairs - 1)
-        which = ch.choice(lab + ".badwhich", ["in", "out", "out-prefix"])
+        which = ch.choice(lab + ".badwhich", ["in", "out", "out-prefix", "out-trailing-dot", "out-leading-dot"])
         if which == "in" and not ev:
             pairs[j][0] = pairs[j][0] + "_nope"
         elif which == "out-prefix":
             pairs[j][1] = "Missing." + pairs[j][1]
+        elif which in ("out-trailing-dot", "out-leading-dot"):
+            # a stray separator: "Target." / ".Target" names nothing (its components are 'Target' and the empty name)
+            holder = pairs[j][1].rpartition(".")[0] or "Target"
+            pairs[j][1] = (holder + ".") if which == "out-trailing-dot" else ("." + holder)
         else:
             pairs[j][1] = pairs[j][1] + "_nope"
     wrap = ch.choice(lab + ".wrap", [None, None, "Optional[{output_param}]", "Optional[Union[{output_param}, str]]"])
